@@ -74,8 +74,11 @@ class Target:
         frag = sim._design.fragment if hasattr(sim, "_design") else None
         domains = list(sim._design.fragment.domains.keys()) if frag is not None else ["sync"]
         if self.clocks:
-            for d, period in self.clocks.items():
-                sim.add_clock(period, domain=d)
+            # multi-clock target: {domain: ratio}; one trace step = one period of the fastest clock,
+            # active edges of a domain with ratio r coincide with every r-th fast edge (steps 0, r, 2r, ...)
+            base = 1e-6
+            for d, ratio in self.clocks.items():
+                sim.add_clock(base * ratio, phase=base / 2, domain=d)
         else:
             for d in domains:
                 sim.add_clock(1e-6, domain=d)
@@ -83,13 +86,14 @@ class Target:
         insig = dict(ins); outsig = list(outs)
         tick_domain = domains[0] if domains else "sync"
         if self.clocks:
-            tick_domain = self.tick_domain
+            tick_domain = min(self.clocks, key=lambda d: self.clocks[d])
 
         async def tb(ctx):
             res = []
             for cyc in holder["trace"]:
                 for n, v in cyc.items():
-                    ctx.set(insig[n], v)
+                    if n in insig:
+                        ctx.set(insig[n], v)
                 res.append({n: ctx.get(s) for n, s in outsig})
                 if domains:
                     await ctx.tick(tick_domain)
@@ -104,6 +108,18 @@ class Target:
             sim.run()
             results.append(holder["result"])
         return results
+
+    def add_ticks(self, trace):
+        """For multi-clock targets: add the tick_<clk> fields (step k ticks domain d iff k % ratio == 0)."""
+        if not self.clocks:
+            return trace
+        out = []
+        for k, cyc in enumerate(trace):
+            c = dict(cyc)
+            for d, ratio in self.clocks.items():
+                c[f"tick_{d}_clk"] = int(k % ratio == 0)
+            out.append(c)
+        return out
 
     def pack_in(self, cyc):
         return nir2coq.pack(self.layout.inputs, cyc)
